@@ -35,11 +35,13 @@ struct Schema {
     physical: &'static [usize],
 }
 
-const SCHEMAS: [Schema; 5] = [
+const SCHEMAS: [Schema; 6] = [
     Schema { name: "pk-id", create: "CREATE TABLE t (id INTEGER PRIMARY KEY, a INTEGER, b INTEGER, c VARCHAR(10))", pk: &[0], unique: &[], not_null: &[], check_b_nonneg: false, physical: &[0, 1, 2, 3] },
     Schema { name: "no-pk", create: "CREATE TABLE t (id INTEGER, a INTEGER, b INTEGER, c VARCHAR(10))", pk: &[], unique: &[], not_null: &[], check_b_nonneg: false, physical: &[0, 1, 2, 3] },
     Schema { name: "pk-second-column", create: "CREATE TABLE t (a INTEGER, id INTEGER PRIMARY KEY, b INTEGER, c VARCHAR(10))", pk: &[0], unique: &[], not_null: &[], check_b_nonneg: false, physical: &[1, 0, 2, 3] },
     Schema { name: "pk-composite", create: "CREATE TABLE t (id INTEGER, a INTEGER, b INTEGER, c VARCHAR(10), PRIMARY KEY (id, a))", pk: &[0, 1], unique: &[], not_null: &[], check_b_nonneg: false, physical: &[0, 1, 2, 3] },
+    // column c is a DATE: values arrive as strings and are converted (or refused) by the executor
+    Schema { name: "date-column", create: "CREATE TABLE t (id INTEGER PRIMARY KEY, a INTEGER, b INTEGER, c DATE)", pk: &[0], unique: &[], not_null: &[], check_b_nonneg: false, physical: &[0, 1, 2, 3] },
     Schema { name: "constraints", create: "CREATE TABLE t (id INTEGER PRIMARY KEY, a INTEGER UNIQUE, b INTEGER NOT NULL, c VARCHAR(10), CHECK (b >= 0))", pk: &[0], unique: &[1], not_null: &[2], check_b_nonneg: true, physical: &[0, 1, 2, 3] },
 ];
 
@@ -72,6 +74,14 @@ impl<'a> Gen<'a> {
         if self.rng.chance(1, 8) { "NULL".into() } else { self.rng.range(0, 5).to_string() }
     }
     fn val_c(&mut self) -> String {
+        if self.sch.name == "date-column" {
+            // mostly valid dates, sometimes text that is not a date (refused when converted)
+            return match self.rng.below(8) {
+                0 => "NULL".into(),
+                1 => format!("'{}'", self.rng.pick(&["zz", "2024-13-45", "", "24-1-1x"])),
+                _ => format!("'{}'", self.rng.pick(&["2024-01-01", "1999-12-31", "2000-02-29"])),
+            };
+        }
         if self.rng.chance(1, 6) { "NULL".into() } else { format!("'{}'", self.rng.pick(&["x", "y", "zz", ""])) }
     }
     /// row literal in logical order (id, a, b, c) rendered in the table's physical order
@@ -294,8 +304,8 @@ pub fn run_c15(ctx: &mut Ctx) {
 
 fn setup(rng: &mut Rng, mode: Mode) -> (Session, &'static Schema, Vec<String>) {
     let sch: &'static Schema = match mode {
-        Mode::C10 => if rng.chance(2, 3) { &SCHEMAS[4] } else { &SCHEMAS[rng.usize(4)] },
-        _ => &SCHEMAS[rng.usize(5)],
+        Mode::C10 => if rng.chance(2, 3) { &SCHEMAS[5] } else { &SCHEMAS[rng.usize(5)] },
+        _ => &SCHEMAS[rng.usize(6)],
     };
     let mut s = Session::new();
     s.must(sch.create);
